@@ -279,9 +279,18 @@ func checkMain(args []string) int {
 		olds, _ := filepath.Glob(filepath.Join(verifDir(), ".build", "out", p.ID+"-*"))
 		for _, o := range olds {
 			if o != outDir {
-				if fi, err := os.Stat(o); err == nil && time.Since(fi.ModTime()) > 6*time.Hour {
+				if fi, err := os.Stat(o); err == nil && time.Since(fi.ModTime()) > 45*time.Minute {
 					os.RemoveAll(o)
 				}
+			}
+		}
+		if *noEvidence {
+			os.RemoveAll(outDir) // tool runs: nothing reads the worker files afterwards
+		}
+		reps, _ := filepath.Glob(filepath.Join(verifDir(), ".build", "replays", "*"))
+		for _, o := range reps {
+			if fi, err := os.Stat(o); err == nil && time.Since(fi.ModTime()) > 45*time.Minute {
+				os.RemoveAll(o)
 			}
 		}
 	}()
